@@ -204,7 +204,7 @@ func VerifSelectorWS() {
 	var src []byte
 	for i, a := range atoms {
 		if i > 0 && i < len(atoms)-1 || i == len(atoms)-1 {
-			seps[i] = vRange("sep", 0, 3)
+			seps[i] = vRange("sep", 0, 5)
 			switch seps[i] {
 			case 1: // any single CSS whitespace byte
 				ws := vByte("ws")
@@ -214,6 +214,10 @@ func VerifSelectorWS() {
 				src = append(src, "/**/"...)
 			case 3:
 				src = append(src, " /**/ "...)
+			case 4:
+				src = append(src, " /**/"...)
+			case 5:
+				src = append(src, "/**/ "...)
 			}
 		}
 		src = append(src, a...)
@@ -267,4 +271,53 @@ func VerifSelectorWS() {
 		}
 	}
 	vReach("selector")
+}
+
+var vnAtRules = []struct {
+	name string
+	kind int // 1 rule list, 2 declaration list, 0 unknown
+}{{"media", 1}, {"supports", 1}, {"document", 1}, {"keyframes", 1}, {"layer", 1}, {"font-face", 2}, {"page", 2}, {"foo", 0}}
+
+// VerifAtRuleKinds: an at-rule whose name is spelled in arbitrary ASCII case (name bytes are
+// solver variables) with a block: the block is parsed as the rule list / declaration list the
+// at-rule kind prescribes, and the reported name is lower case.
+func VerifAtRuleKinds() {
+	ar := vnAtRules[vRange("rule", 0, len(vnAtRules)-1)]
+	name := vBytes("name", len(ar.name))
+	for i := range name {
+		c := ar.name[i]
+		if c >= 'a' && c <= 'z' {
+			vAssume(name[i] == c || name[i] == c-32)
+		} else {
+			vAssume(name[i] == c)
+		}
+	}
+	src := append([]byte("@"), name...)
+	if vRange("vendor", 0, 1) == 1 {
+		src = append([]byte("@-o-"), name...)
+	}
+	var want []GrammarType
+	switch ar.kind {
+	case 1:
+		src = append(src, " x{a{b:c}}d{e:f}"...)
+		want = []GrammarType{BeginAtRuleGrammar, BeginRulesetGrammar, DeclarationGrammar, EndRulesetGrammar, EndAtRuleGrammar, BeginRulesetGrammar, DeclarationGrammar, EndRulesetGrammar, ErrorGrammar}
+	case 2:
+		src = append(src, "{b:c}d{e:f}"...)
+		want = []GrammarType{BeginAtRuleGrammar, DeclarationGrammar, EndAtRuleGrammar, BeginRulesetGrammar, DeclarationGrammar, EndRulesetGrammar, ErrorGrammar}
+	default:
+		src = append(src, " x{b}d{e:f}"...)
+		want = []GrammarType{BeginAtRuleGrammar, TokenGrammar, EndAtRuleGrammar, BeginRulesetGrammar, DeclarationGrammar, EndRulesetGrammar, ErrorGrammar}
+	}
+	p := NewParser(parse.NewInputBytes(append(make([]byte, 0, len(src)+1), src...)), false)
+	for i, w := range want {
+		gt, _, data := p.Next()
+		vAssert(gt == w, "at-rule-grammar-sequence")
+		if i == 0 {
+			for _, c := range data {
+				vAssert(c < 'A' || c > 'Z', "at-rule-name-not-lowercase")
+			}
+		}
+	}
+	vAssert(!p.HasParseError(), "at-rule-parse-error")
+	vReach("atrule")
 }
